@@ -159,11 +159,18 @@ pub fn load_known() -> Vec<KnownFinding> {
         extra.sort();
         files.extend(extra);
     }
-    let mut out = Vec::new();
-    for p in files {
-        match std::fs::read_to_string(&p) {
+    let mut out: Vec<KnownFinding> = Vec::new();
+    for (n, p) in files.iter().enumerate() {
+        match std::fs::read_to_string(p) {
             Ok(s) => match serde_json::from_str::<Vec<KnownFinding>>(&s) {
-                Ok(v) => out.extend(v),
+                Ok(v) => {
+                    if n > 0 {
+                        // a fragment entry replaces the entries of known_findings.json with
+                        // the same (property, key)
+                        out.retain(|o| !v.iter().any(|x| x.property == o.property && x.key == o.key));
+                    }
+                    out.extend(v)
+                }
                 Err(e) => {
                     eprintln!("HARNESS-ERROR: cannot parse {}: {}", p, e);
                     std::process::exit(2);
